@@ -44,7 +44,9 @@ def scan_forbidden():
     return bad
 
 
-EXTRA_MODULES = {"C06": ["C06Refine"], "C07": ["C07b"], "C16": ["C16b"], "C17": ["C17b"]}     # further theorem files that belong to a property
+EXTRA_MODULES = {"C01": ["H1"], "C02": ["H1"], "C06": ["C06Refine", "H1"], "C07": ["C07b", "H1"], "C12": ["H1"], "C14": ["H1"],
+                 "C16": ["C16b", "H1"], "C17": ["C17b"]}
+SHARED_MODULES = {"H1"}                     # modules holding theorems of several properties: only the `Cnn_…` ones count for Cnn     # further theorem files that belong to a property
 
 
 def prop_modules(prop_id):
@@ -57,7 +59,10 @@ def theorem_names(prop_id):
     for m in prop_modules(prop_id):
         txt = open(os.path.join(runner.LEAN, "NetflowModel", "Props", m + ".lean")).read()
         txt = re.sub(r"/-.*?-/", "", txt, flags=re.S)
-        names += re.findall(r"^theorem\s+([A-Za-z0-9_.']+)", txt, flags=re.M)
+        found = re.findall(r"^theorem\s+([A-Za-z0-9_.']+)", txt, flags=re.M)
+        if m in SHARED_MODULES:
+            found = [n for n in found if n.startswith(prop_id + "_")]
+        names += found
     return names
 
 
